@@ -109,11 +109,16 @@ def run_shard(params, rec):
         in_slot = P in prog.delay_slots
         if in_slot:
             rec.count("fault_in_delay_slot")
+        elif prog.loop is not None:
+            # looping program (only generated to put an instruction in a delay slot): the fault may
+            # happen in a later iteration, where "stopped on first reach of P" is not the pre-state;
+            # only the resume half is judged
+            in_slot = "loop"
         # ---- pre-instruction snapshot: single-step reference of the same back end stopped on P
         # (not for a delay slot: a breakpoint there would split the branch from its slot)
         pre = jitlib.Outcome()
         refj = jitlib.new_jitter(spec, backend, prog, dict(jit_maxline=1, max_exec_per_call=1))
-        state = dict(hit=in_slot, early=False)
+        state = dict(hit=bool(in_slot), early=False)
 
         def stop_at_p(j):
             state["hit"] = True
@@ -186,7 +191,7 @@ def run_shard(params, rec):
         rec.count("resumes_compared")
         if d2 is not None:
             key = "%s: resumed run differs from the run without fault (%s, %s)" % (backend, d2[0], spec.family)
-            if in_slot:
+            if in_slot is True:
                 key = "%s: a fault in a branch delay slot loses the pending branch on resume" % backend
             rec.fail(key,
                      "%s %s: after resuming at %s: %s %s" % (spec.mname, backend, wit["faulting"], d2[0], d2[1]),
